@@ -67,7 +67,7 @@ static PSemaphore *sh[MAXH]; static sem_t *shraw[MAXH]; static PShm *mh[MAXH];
 static const char *prefix;
 static void child_main (void) {
 	char line[512], op[32], a2[64], a3[64], a4[64]; int h;
-	p_libsys_init ();
+	p_libsys_init (); p_libsys_shutdown (); p_libsys_init ();      /* the library is used after a shutdown / re-initialisation cycle */
 	for (;;) {
 		int n = 0, i = 0; char c; char name[160];
 		/* unbuffered line read (the gate reads single bytes from the same descriptor) */
